@@ -113,6 +113,14 @@ abbrev accOverflow (acc v : Nat) : Prop := (acc : Int) > (2147483647 : Int) - v
 abbrev shortRead (len pos length : Nat) : Prop := (len : Int) - pos < length
 /-- `BinaryReader::ReadUInt`: `value < 0` -/
 abbrev negative (v : Int) : Prop := v < 0
+/-- `ReadString`: `*ptr_ != ':'` -/
+abbrev notColon (c : UInt8) : Bool := c != 58
+/-- `ReadString`: `!c && ptr_ == end_` inside the string -/
+abbrev eofInString (c : UInt8) (atEnd : Bool) : Bool := c == 0 && atEnd
+/-- `ReadString`: `*ptr_ != '\n'` after the string -/
+abbrev notNewline (c : UInt8) : Bool := c != 10
+/-- `ReadName`: `*ptr_ == '\n' || !*ptr_` -/
+abbrev noName (c : UInt8) : Bool := c == 10 || c == 0
 end G
 
 section
@@ -260,7 +268,7 @@ def strLoop : (n : Nat) → RState → Option RState
   | n + 1, r =>
     let c := inp.rd r.pos
     if c == 10 then strLoop n { r with pos := r.pos + 1, lineStart := r.pos + 1, line := r.line + 1 }
-    else if c == 0 && r.pos == inp.len then none
+    else if G.eofInString c (r.pos == inp.len) then none
     else strLoop n { r with pos := r.pos + 1 }
 
 /-- position and line bookkeeping at the point where `strLoop` fails -/
@@ -269,7 +277,7 @@ def strLoopFail : (n : Nat) → RState → RState
   | n + 1, r =>
     let c := inp.rd r.pos
     if c == 10 then strLoopFail n { r with pos := r.pos + 1, lineStart := r.pos + 1, line := r.line + 1 }
-    else if c == 0 && r.pos == inp.len then r
+    else if G.eofInString c (r.pos == inp.len) then r
     else strLoopFail n { r with pos := r.pos + 1 }
 
 def slice (a b : Nat) : List UInt8 := (List.range (b - a)).map fun i => inp.rd (a + i)
@@ -278,7 +286,7 @@ def slice (a b : Nat) : List UInt8 := (List.range (b - a)).map fun i => inp.rd (
 def tReadString : L (List UInt8) := do
   let length ← tReadUInt inp
   let r ← L.get
-  if inp.rd r.pos != 58 then tReportAt inp r.pos .colon else
+  if G.notColon (inp.rd r.pos) then tReportAt inp r.pos .colon else
   let r := { r with pos := r.pos + 1 }
   let start := r.pos
   -- the loop can run at most to the terminating NUL, so `length` beyond the input fails
@@ -287,7 +295,7 @@ def tReadString : L (List UInt8) := do
     let rf := strLoopFail inp (min length (inp.len + 1 - start)) r
     L.set rf; tReportAt inp rf.pos .eofstr
   | some r' =>
-    if inp.rd r'.pos != 10 then do L.set r'; tReportAt inp r'.pos .newline
+    if G.notNewline (inp.rd r'.pos) then do L.set r'; tReportAt inp r'.pos .newline
     else do
       L.set { r' with pos := r'.pos + 1, lineStart := r'.pos + 1, line := r'.line + 1 }
       pure (slice inp start r'.pos)
@@ -301,7 +309,7 @@ def tReadName : L (List UInt8) := do
   tSkipSpace inp
   let r ← L.get
   let c := inp.rd r.pos
-  if c == 10 || c == 0 then tReport inp .name else
+  if G.noName c then tReport inp .name else
   let p := nameEnd inp (inp.len + 1 - r.pos) (r.pos + 1)
   L.set { r with pos := p }
   pure (slice inp r.pos p)
